@@ -80,7 +80,10 @@ Definition mr_ok (i : mr_in) (o : mr_out) : bool :=
       let thr := thr_2f1 (c_fchain c) in
       field_ok root_eqb roots_kv acc thr (c_roots c) &&
       field_ok N.eqb onramp_kv acc thr (c_onramp c) &&
-      field_ok N.eqb offramp_kv acc thr (c_offramp c) &&
+      (* off-ramp next numbers are destination data: every key at the destination's 2*f_dest+1 (fixes/F26.patch) *)
+      (let dthr := fun _ : N => match alookup dest (c_fchain c) with
+                                 | Some fd => Some (two_f_plus_1 fd) | None => None end in
+       field_ok N.eqb offramp_kv acc dthr (c_offramp c)) &&
       field_ok N.eqb (rmn_kv dest) acc thr (c_rmn c)
   | _ => false
   end.
@@ -208,10 +211,12 @@ Definition spec_cons (F : Z) (dest : N) (acc : list aobs) : res cons :=
   let fch := spec_map Z.eqb fchain_kv acc (fun _ : N => Some (two_f_plus_1 F)) in
   match alookup dest fch with
   | None => Err
-  | Some _ =>
+  | Some fd =>
       let thr := thr_2f1 fch in
+      (* off-ramp next numbers at the destination's f for every key (fixes/F26.patch) *)
       Ok (mkCons (spec_map root_eqb roots_kv acc thr) (spec_map N.eqb onramp_kv acc thr)
-                 (spec_map N.eqb offramp_kv acc thr) (spec_map N.eqb (rmn_kv dest) acc thr) fch)
+                 (spec_map N.eqb offramp_kv acc (fun _ : N => Some (two_f_plus_1 fd)))
+                 (spec_map N.eqb (rmn_kv dest) acc thr) fch)
   end.
 
 (* the property: verdicts are those of the validation rules (an implementation that lets more through is a violation),
